@@ -132,6 +132,11 @@ def run(ctx):
     else:
         n = 5000 if ctx.thorough() else 500
         scripts = [gen_script(ctx.rng) for _ in range(n)] + [gen_script(ctx.rng, cancel=True) for _ in range(n // 3)]
+        if ctx.broken:
+            # an obligation or the tie broke: search harder for a failing input (longer scripts, more cancels, and each
+            # cancel script twice: `select` among ready arms is the runtime's coin)
+            more = [gen_script(ctx.rng, maxlen=12) for _ in range(2 * n)] + [gen_script(ctx.rng, maxlen=12, cancel=True) for _ in range(2 * n)]
+            scripts += more + [s for s in more if " x" in s]
     trs = ls.judge(ctx, scripts, evaluate, record=False)
     for s, tr in zip(scripts, trs):
         if tr is not None:
